@@ -183,7 +183,7 @@ func TestC15svc(t *testing.T) {
 	col := evd.New("C15", cfg)
 	defer col.Flush()
 	sec, min := time.Second, time.Minute
-	prof := hist.Profile{Name: "twin-services", Ops: 110, Topics: 2, Subs: 4, POrdered: 0, PFilter: 0.3, PDL: 0.3, PRetry: 0.6, ProbeOnly: true, NoTick: true,
+	prof := hist.Profile{Name: "twin-services", Ops: 110, Topics: 2, Subs: 4, POrdered: 0, PFilter: 0.3, PDL: 0.3, PRetry: 0.6, ProbeOnly: true,
 		Retentions: []time.Duration{0, 10 * min, 20 * sec}, Keys: []string{""},
 		W: weights(map[string]int{"job": 0, "expire-job": 0, "jump": 20, "jump-long": 0, "delete-sub": 3, "create-sub": 4, "delete-topic": 2, "create-topic": 2,
 			"seek-time": 0, "seek-snapshot": 0, "snapshot": 2, "stream": 0, "pull-due": 10, "set-delay": 0})}
@@ -255,7 +255,7 @@ func TestC15(t *testing.T) {
 	col := evd.New("C15", cfg)
 	defer col.Flush()
 	sec, min := time.Second, time.Minute
-	twin := hist.Profile{Name: "twin", Ops: 120, Topics: 2, Subs: 4, POrdered: 0.4, PFilter: 0.3, PDL: 0.3, PRetry: 0.6, ProbeOnly: true, NoTick: true,
+	twin := hist.Profile{Name: "twin", Ops: 120, Topics: 2, Subs: 4, POrdered: 0.4, PFilter: 0.3, PDL: 0.3, PRetry: 0.6, ProbeOnly: true,
 		Retentions: []time.Duration{0, 10 * min, 20 * sec}, Keys: []string{"", "k1", "k2"},
 		W: weights(map[string]int{"job": 45, "expire-job": 2, "jump-long": 2, "delete-sub": 3, "create-sub": 4, "delete-topic": 2, "create-topic": 2,
 			"seek-time": 0, "seek-snapshot": 0, "snapshot": 2, "stream": 0, "pull-due": 10})}
@@ -274,8 +274,8 @@ func TestC15(t *testing.T) {
 		}
 		// (b) twin pair
 		scratch := evd.New("C15", cfg) // the job-free twin only provides the reference trace
-		plain := hist.RunHistoryOpt(t, scratch, "C15", twin, seed, func(w *hist.World) { w.NoJobs = true }, nil)
-		spliced := hist.RunHistoryOpt(t, col, "C15", twin, seed, func(w *hist.World) { w.CheckJobs = true }, nil)
+		plain := hist.RunHistoryOpt(t, scratch, "C15", twin, seed, func(w *hist.World) { w.NoJobs = true; w.DiagPulls = true }, nil)
+		spliced := hist.RunHistoryOpt(t, col, "C15", twin, seed, func(w *hist.World) { w.CheckJobs = true; w.DiagPulls = true }, nil)
 		a, b := clientTrace(plain), clientTrace(spliced)
 		twins++
 		diffAt := -1
@@ -305,7 +305,7 @@ func TestC15(t *testing.T) {
 				}
 			}
 			col.Violation("twin-trace-differs", fmt.Sprintf("the same history (seed %d) gives a different client-visible trace when prune jobs are spliced in; first difference at client step %d: without jobs %q, with jobs %q", seed, diffAt, get(a, diffAt), get(b, diffAt)),
-				map[string]any{"case_seed": seed, "profile": "twin", "step": diffAt, "without_jobs": get(a, diffAt), "with_jobs": get(b, diffAt), "ops_with_jobs": spliced.Ops})
+				map[string]any{"case_seed": seed, "profile": "twin", "step": diffAt, "without_jobs": get(a, diffAt), "with_jobs": get(b, diffAt), "ops_with_jobs": spliced.Ops, "ops_without_jobs": plain.Ops})
 		} else {
 			same++
 		}
